@@ -91,7 +91,9 @@ def api_level(chk, tier):
                 chk.violation(dict(obligation='C18.bounded.escape_bytes', pattern=s), f'escape({s!r}, {kw}) differs between str and bytes', None)
     # mixed types raise TypeError
     for call in (lambda: F.fnmatch('a', b'a'), lambda: F.fnmatch(b'a', 'a'), lambda: G.globmatch('a', b'a'), lambda: G.glob('a', root_dir=b'.'), lambda: G.glob(b'a', root_dir='.'),
-                 lambda: G.globmatch('a', b'a', flags=G.P), lambda: G.globmatch(b'a', b'a', flags=G.P, root_dir='.'), lambda: F.filter(['a'], b'a')):
+                 lambda: G.globmatch('a', b'a', flags=G.P), lambda: G.globmatch(b'a', b'a', flags=G.P, root_dir='.'), lambda: F.filter(['a'], b'a'),
+                 lambda: G.globmatch(b'a', b'a', flags=G.P, root_dir=''), lambda: G.globmatch('a', 'a', flags=G.P, root_dir=b''), lambda: G.globfilter([b'a'], b'a', flags=G.P, root_dir=''),
+                 lambda: G.compile(b'a', flags=G.P).match(b'a', root_dir=''), lambda: G.glob('a', root_dir=b''), lambda: G.glob(b'a', root_dir='')):
         n += 1
         chk.case(key=('mixed', n))
         try:
@@ -99,6 +101,22 @@ def api_level(chk, tier):
             chk.violation(dict(obligation='C18.bounded.mixed_types_raise_TypeError', case=n), f'a mixed str/bytes call returned {r!r} instead of raising TypeError', None)
         except TypeError:
             pass
+    # RAWCHARS in bytes patterns: every byte value written as an octal or hex escape denotes exactly that byte; ASCII ones agree with str
+    allb = [bytes([v]) for v in range(256)]
+    for v in range(256):
+        for form, pt in (('octal', b'\\%03o' % v), ('hex', b'\\x%02x' % v), ('octal-in-bracket', b'[\\%03o]' % v)):
+            n += 1
+            chk.case(key=('rawbyte', form, v))
+            try:
+                got = F.filter(allb, pt, flags=F.R | F.C | F.D)
+            except Exception as e:
+                got = f'{type(e).__name__}: {e}'
+            # a decoded metacharacter acts as one (C20): those values are not expected to denote themselves
+            meta = bytes([v]) in (b'!^\\]-[:' if form == 'octal-in-bracket' else b'*?[]\\!|()-^')
+            if got != [bytes([v])] and not meta:
+                chk.violation(dict(obligation='C18.bounded.RAWCHARS_byte_escape_denotes_that_byte', pattern=pt.decode('latin-1'), form=form),
+                              f'fnmatch.filter(all 256 single bytes, {pt!r}, RAWCHARS|CASE|DOTMATCH) -> {got if isinstance(got, str) else got[:4]} instead of [{bytes([v])!r}]',
+                              f"import sys; sys.path.insert(0, {REPO!r})\nfrom wcmatch import fnmatch\ngot = fnmatch.filter([bytes([v]) for v in range(256)], {pt!r}, flags=fnmatch.R | fnmatch.C | fnmatch.D)\nprint(got)\nsys.exit(0 if got == [{bytes([v])!r}] else 1)\n")
     # glob / WcMatch on trees with str vs bytes roots: same paths in the same order
     for tname in ('basic', 'links') if tier == 'quick' else trees.NAMED:
         with trees.Tree(trees.NAMED[tname]) as t:
